@@ -880,9 +880,10 @@ class ConnWatch(object):
     """records, for every datagram handed to conn._recv_datagram and every message handed to conn._recv_message,
     what the endpoint's windows looked like just before.  Pure observation: the original bound methods run unchanged."""
 
-    def __init__(self, conn, clock):
+    def __init__(self, conn, clock, net=None):
         self.conn = conn
         self.clock = clock
+        self.net = net            # when given, every datagram record carries the number of emissions so far (exact order)
         self.seen_datagrams = set()
         self.cur_copy = False
         self.cur_dgram_seq = None
@@ -906,7 +907,7 @@ class ConnWatch(object):
                 ok = orig_dg(hdr, datagram)
                 return ok
             finally:
-                watch.datagrams.append((clock.t, int(hdr.seq), watch.cur_copy, ok, lag))
+                watch.datagrams.append((clock.t, int(hdr.seq), watch.cur_copy, ok, lag, len(watch.net.log) if watch.net is not None else -1))
                 watch.cur_copy = False
 
         def recv_message(pkt_typ, msgseq, msg):
